@@ -40,7 +40,7 @@ use zcash_pool_migration::satisfiability::{
     StepSatisfiability, UnsatisfiableCause, UnsatisfiableKind,
 };
 use zcash_pool_migration::scheduling::AnchorBucketInterval;
-use zcash_pool_migration::state::{AdvanceStep, Blocker, NextAction};
+use zcash_pool_migration::state::{AdvanceStep, Blocker, NextAction, StepKind};
 use zcash_pool_migration::testing::arb_migration_state;
 use zcash_primitives::block::BlockHash;
 use zcash_protocol::consensus::BlockHeight;
@@ -166,6 +166,22 @@ impl Ans {
             },
         }
     }
+}
+
+fn p_next(n: Option<(BlockHeight, StepKind)>) -> String {
+    opt(n.map(|(hh, k)| format!(
+        "({}, {})",
+        u32::from(hh),
+        match k {
+            StepKind::Prove => "KProve",
+            StepKind::Broadcast => "KBroadcast",
+            StepKind::Rebuild => "KRebuild",
+            StepKind::Replan => "KReplan",
+            StepKind::Reevaluate => "KReevaluate",
+            StepKind::Waiting => "KWaiting",
+            StepKind::Complete => "KComplete",
+        }
+    )))
 }
 
 fn p_step(s: &AdvanceStep) -> String {
@@ -1008,7 +1024,7 @@ fn run_sequence(r: &mut Rng, mut s: MigrationState, base: u32, len: usize, mut p
                     let res = catch(|| {
                         let mut s2 = before.clone();
                         let a = advance_migration(&mut store, &mut s2, tg, &cfg, &mut rng).unwrap();
-                        (s2, a.step().clone(), store.replaced)
+                        (s2, a.step().clone(), store.replaced, a.next())
                     });
                     let ev = format!(
                         "(EAdvance {} {} {} {} {} {})",
@@ -1034,11 +1050,11 @@ fn run_sequence(r: &mut Rng, mut s: MigrationState, base: u32, len: usize, mut p
                             let mut s3 = before.clone();
                             let a = advance_migration(&mut mb, &mut s3, tg, &cfg, &mut rng2).unwrap();
                             let stored = mb.get_migration().unwrap();
-                            (s3, a.step().clone(), stored)
+                            (s3, a.step().clone(), stored, a.next())
                         });
                         match (&res, &r2) {
-                            (Some((s2, step, replaced)), Some((s3, step3, stored))) => {
-                                s2 == s3 && step == step3
+                            (Some((s2, step, replaced, nx)), Some((s3, step3, stored, nx3))) => {
+                                s2 == s3 && step == step3 && nx == nx3
                                     && (if *replaced > 0 && !s2.is_terminal() { stored.as_ref() == Some(s2) } else { true })
                             }
                             (None, None) => true,
@@ -1050,7 +1066,7 @@ fn run_sequence(r: &mut Rng, mut s: MigrationState, base: u32, len: usize, mut p
                     }
                     match res {
                         Some(_) if !mem_agrees => ("advance", ev, "OMemDisagree".into()),
-                        Some((s2, step, replaced)) => {
+                        Some((s2, step, replaced, nx)) => {
                             let shifted = s2.transactions().iter().zip(before.transactions()).any(|(a, b)| a.scheduled_height() != b.scheduled_height());
                             if shifted {
                                 stats.shifts += 1;
@@ -1066,7 +1082,7 @@ fn run_sequence(r: &mut Rng, mut s: MigrationState, base: u32, len: usize, mut p
                                 AdvanceStep::Complete => "complete",
                             };
                             *stats.steps.entry(nm).or_default() += 1;
-                            let out = format!("(OStep {} {})", p_step(&step), boolc(replaced > 0));
+                            let out = format!("(OStep {} {} {})", p_step(&step), boolc(replaced > 0), p_next(nx));
                             last_step = Some(step);
                             ("advance", ev, out)
                         }
@@ -1234,7 +1250,7 @@ fn advance_case(s: &MigrationState, scanned: u32, est: u32, stats: &mut Stats) {
     let mut s2 = s.clone();
     let a = advance_migration(&mut store, &mut s2, DuenessTargets::new(h(scanned), h(est)), &AdvanceConfig::new(ReorgSettleDepth::new(10)), &mut rng).unwrap();
     let ev = format!("(EAdvance {} {} [] (Sat {}) [] [2; 1])", scanned, est, scanned.saturating_sub(1));
-    emit(&pre, ev, &s2, format!("(OStep {} {})", p_step(a.step()), boolc(store.replaced > 0)), None);
+    emit(&pre, ev, &s2, format!("(OStep {} {} {})", p_step(a.step()), boolc(store.replaced > 0), p_next(a.next())), None);
     *stats.events.entry("advance_lattice").or_default() += 1;
 }
 
@@ -1361,11 +1377,11 @@ fn witnesses(stats: &mut Stats) {
             let res = catch(|| {
                 let mut s2 = s.clone();
                 let a = advance_migration(&mut store, &mut s2, DuenessTargets::new(h(scanned), h(est)), &AdvanceConfig::new(ReorgSettleDepth::new(10)), &mut rng).unwrap();
-                (s2, a.step().clone(), store.replaced)
+                (s2, a.step().clone(), store.replaced, a.next())
             });
             let ev = format!("(EAdvance {} {} [] (Sat {}) [] [1])", scanned, est, scanned - 1);
             match res {
-                Some((s2, step, rep)) => emit(&pre, ev, &s2, format!("(OStep {} {})", p_step(&step), boolc(rep > 0)), None),
+                Some((s2, step, rep, nx)) => emit(&pre, ev, &s2, format!("(OStep {} {} {})", p_step(&step), boolc(rep > 0), p_next(nx)), None),
                 None => {
                     stats.panics += 1;
                     emit(&pre, ev, &s, "OPanic".into(), None)
